@@ -165,11 +165,13 @@ def run(ctx):
             bb, t = sends[0]
             ir_ = P.root(P.operand(ss, t['args'][1], at=bb))
             ok = bool(ir_) and all(x == ('param', ss.id, 2) and not norm_path(p) for x, p in ir_)
-            rr = P.root(P._local_whole(ss, 0))
-            ok = ok and bool(rr) and all(P.unbound(x) == ('call', ss.id, bb) for x, _ in rr)
+            # the inner call's error reaches the caller: the result is the call's (possibly map_err'd) result, or `?` propagates it
+            from .common import deep_roots
+            rr = deep_roots(P, P._local_whole(ss, 0))
+            ok = ok and any(P.unbound(x) == ('call', ss.id, bb) for x, _ in rr)
             recv = P.root(P.operand(ss, t['args'][0], at=bb))
             ok = ok and all(x == ('param', ss.id, 1) for x, _ in recv)
-        R.ob('C15.forward', (ty, 'start_send forwards its item'), ok, 'the item given to start_send is handed unchanged, exactly once, to the inner sender and its result is returned', [ss.loc(ss.d)])
+        R.ob('C15.forward', (ty, 'start_send forwards its item'), ok, 'the item given to start_send is handed unchanged, exactly once, to the inner sender and a failure of that call is returned', [ss.loc(ss.d)])
         n_fw += 1
         pn = F.trait_method('Stream', ty, 'poll_next')
         polls = [(bb, t) for bb, t in pn.calls() if callee_is(t, *recv_names)]
